@@ -238,13 +238,17 @@ def emit_entry(e, dialect, r):
 def emit_archive(entries, dialect, r, trailer_blocks=2):
     out = b""
     kept = []
+    have = set()
     for e in entries:
         d = dialect
         if dialect == "mixed":
             d = r.choice(["ustar", "gnu", "pax"])
+        if e.type == "hlink" and e.target not in have:
+            continue        # its target could not be written in this dialect: a dangling link would make the archive invalid
         try:
             out += emit_entry(e, d, r)
             kept.append(e)
+            have.add(e.name)
         except Unrepresentable:
             continue
     return out + b"\0" * (BLOCK * trailer_blocks), kept
